@@ -107,24 +107,9 @@ inductive Serializer | json | protobuf
 inductive DecErr | panic | error
   deriving Repr, DecidableEq
 
-/-- json.Marshal of a column value (both serializers marshal the value with encoding/json; a
-    time.Time is formatted as RFC3339Nano by ColumnImage.MarshalJSON for the JSON serializer and by
-    time.Time's own MarshalJSON for protobuf — the same text for UTC instants) -/
-def marshalVal : GoVal → JVal
-  | .nil => .null
-  | .int i => .int i
-  | .float t f => .float t f
-  | .f32 t => .float t true
-  | .str s => .str s
-  | .bytes b => .str (b64enc b)
-  | .time ns => .str (putBE 8 (ns % 18446744073709551616).toNat)   -- stands for the RFC3339Nano text of the instant (injective)
+def jBlob : Int := 2004
 
-def timeOfText (s : Bytes) : Option Int :=
-  match getBE 8 s with
-  | some (n, []) => some (if n < 9223372036854775808 then (n : Int) else (n : Int) - 18446744073709551616)
-  | _ => none
-
-/-- how UnmarshalJSON treats a JDBC type code -/
+/-- how the decoder treats a JDBC type code -/
 inductive JClass | real | dbl | intN (bits : Nat) | time | char | bin | other
   deriving Repr, DecidableEq
 
@@ -137,13 +122,122 @@ def classOf (jdbc : Int) : JClass :=
   else if jdbc = jBigInt then .intN 64
   else if jdbc = jTimestamp ∨ jdbc = jDate ∨ jdbc = jTime then .time
   else if jdbc = jChar ∨ jdbc = jVarchar ∨ jdbc = jLongVarchar then .char
-  else if jdbc = jBinary ∨ jdbc = jVarBinary ∨ jdbc = jLongVarBinary ∨ jdbc = jBit then .bin
-  else .other                              -- no case for this type code: the value is dropped
+  else if jdbc = jBinary ∨ jdbc = jVarBinary ∨ jdbc = jLongVarBinary ∨ jdbc = jBit ∨ jdbc = jBlob then .bin
+  else .other                              -- no rule of its own: the value is taken as the document has it
+
+/-- json.Marshal of a column value as the protobuf serializer does it (the raw value; a time.Time through its
+    own MarshalJSON, the same RFC3339Nano text for UTC instants) -/
+def marshalVal : GoVal → JVal
+  | .nil => .null
+  | .int i => .int i
+  | .float t f => .float t f
+  | .f32 t => .float t true
+  | .str s => .str s
+  | .bytes b => .str (b64enc b)
+  | .time ns => .str (putBE 8 (ns % 18446744073709551616).toNat)   -- stands for the RFC3339Nano text of the instant (injective)
+
+/-- ColumnImage.MarshalJSON (JSON serializer): as above, except that a TEXT of a character column which happens
+    to be valid base64 is written in its base64 form — the reader tries base64 first and would otherwise take
+    the text for the base64 form of other bytes -/
+def marshalJson (jdbc : Int) (v : GoVal) : JVal :=
+  match v, classOf jdbc with
+  | .str s, .char => if (b64dec s).isSome then .str (b64enc s) else .str s
+  | v, _ => marshalVal v
+
+def timeOfText (s : Bytes) : Option Int :=
+  match getBE 8 s with
+  | some (n, []) => some (if n < 9223372036854775808 then (n : Int) else (n : Int) - 18446744073709551616)
+  | _ => none
 
 def inRange (bits : Nat) (i : Int) : Bool := -(2 ^ (bits - 1) : Int) ≤ i && i < (2 ^ (bits - 1) : Int)
 
-/-- ColumnImage.UnmarshalJSON (JSON serializer) at HEAD, by class of the type code -/
+/-- the value the document holds, taken as it is (types.ColumnValueFromJSON's last resort; numbers are read
+    with json.Number, so an integer keeps all its digits) -/
+def passThrough : JVal → GoVal
+  | .null => .nil
+  | .int i => .int i
+  | .float t f => .float t f
+  | .str s => .str s
+
+/-- types.ColumnValueFromJSON by class of the type code.  `error`: the only failure left is a text in a time
+    column that is not a point in time, and (a model restriction, not reachable from the scanner) a number
+    outside the range of its integer column or a fraction in one. -/
 def unmarshalC : JClass → JVal → Except DecErr GoVal
+  | _, .null => .ok .nil
+  | .real, .float t _ => .ok (.f32 t)
+  | .real, .int i => .ok (.int i)                      -- float32(i): the same number while exact (see `supported`)
+  | .dbl, .float t f => .ok (.float t f)
+  | .dbl, .int i => .ok (.int i)
+  | .intN bits, .int i => if inRange bits i then .ok (.int i) else .error .error
+  | .intN _, .float _ _ => .error .error
+  | .time, .str s => (match timeOfText s with | some ns => .ok (.time ns) | none => .error .error)
+  | .char, .str s => (match b64dec s with | some b => .ok (.str b) | none => .ok (.str s))
+  | .bin, .str s => (match b64dec s with | some b => .ok (.bytes b) | none => .ok (.bytes s))
+  | _, j => .ok (passThrough j)
+
+def unmarshalJson (jdbc : Int) (j : JVal) : Except DecErr GoVal := unmarshalC (classOf jdbc) j
+
+/-- protobuf serializer (convertAnyToColumnValue): the same rules, except that a text of a character column
+    stays the text it is (this serializer writes the raw value and has never decoded base64 there) -/
+def unmarshalPb (jdbc : Int) (j : JVal) : Except DecErr GoVal :=
+  match classOf jdbc, j with
+  | .char, .str s => .ok (.str s)
+  | c, j => unmarshalC c j
+
+def roundtripVal (ser : Serializer) (jdbc : Int) (v : GoVal) : Except DecErr GoVal :=
+  match ser with
+  | .json => unmarshalJson jdbc (marshalJson jdbc v)
+  | .protobuf => unmarshalPb jdbc (marshalVal v)
+
+/-- datasource.DeepEqual: numeric kinds compare by value, a text and a byte slice by their bytes, everything
+    else structurally -/
+def undoEq : GoVal → GoVal → Bool
+  | .nil, .nil => true
+  | .int a, .int b => a == b
+  | .float a _, .float b _ => a == b
+  | .float a _, .f32 b => a == b
+  | .f32 a, .float b _ => a == b
+  | .f32 a, .f32 b => a == b
+  | .str a, .str b => a == b
+  | .bytes a, .bytes b => a == b
+  | .str a, .bytes b => a == b
+  | .bytes a, .str b => a == b
+  | .time a, .time b => a == b
+  | _, _ => false
+
+/-- the cells that round-trip: (serializer, JDBC code, value).  Everything the AT scanner produces for the
+    column types it knows is in here; what is left out is a value in a column of a foreign type (a byte slice
+    in a number column, a time outside a time column, ...) and integers beyond 2^53 in FLOAT/DOUBLE columns. -/
+def supported (ser : Serializer) (jdbc : Int) (v : GoVal) : Bool :=
+  match v, classOf jdbc with
+  | .nil, _ => true
+  | .int i, .intN bits => inRange bits i
+  | .int i, .real => exactF64 i
+  | .int i, .dbl => exactF64 i
+  | .int _, .time => false
+  | .int _, _ => true
+  | .float _ f32, .real => f32
+  | .float _ _, .intN _ => false
+  | .float _ _, .time => false
+  | .float _ _, _ => true
+  | .f32 _, _ => false          -- never produced by the scanner
+  | .str _, .char => true
+  | .str s, .bin => (b64dec s).isNone
+  | .str _, .time => false
+  | .str _, _ => true
+  | .bytes _, .bin => true
+  | .bytes _, .char => ser == .json
+  | .bytes _, _ => false
+  | .time ns, .time => -9223372036854775808 ≤ ns && ns < 9223372036854775808
+  | .time _, _ => false
+
+/-! ### the decoders before the repairs in /repo (kept to state what they changed) -/
+
+/-- before: BLOB (2004) had no rule and the binary codes kept the base64 text -/
+def classOfBeforeFix (jdbc : Int) : JClass := if jdbc = jBlob then .other else classOf jdbc
+
+/-- ColumnImage.UnmarshalJSON (JSON serializer) before the repairs, by class of the type code -/
+def unmarshalCBeforeFix : JClass → JVal → Except DecErr GoVal
   | _, .null => .ok .nil
   | .real, .float t _ => .ok (.f32 t)
   | .real, .int i => .ok (.int i)
@@ -163,54 +257,21 @@ def unmarshalC : JClass → JVal → Except DecErr GoVal
   | .bin, .float t f => .ok (.float t f)
   | .other, _ => .ok .nil
 
-def unmarshalJson (jdbc : Int) (j : JVal) : Except DecErr GoVal := unmarshalC (classOf jdbc) j
+def unmarshalJsonBeforeFix (jdbc : Int) (j : JVal) : Except DecErr GoVal := unmarshalCBeforeFix (classOfBeforeFix jdbc) j
 
 /-- protobuf serializer: untyped JSON decode of the marshalled value -/
-def unmarshalPb (j : JVal) : Except DecErr GoVal :=
+def unmarshalPbBeforeFix (j : JVal) : Except DecErr GoVal :=
   match j with
   | .null => .ok .nil
   | .int i => if exactF64 i then .ok (.int i) else .error .error
   | .float t f => .ok (.float t f)
   | .str s => .ok (.str s)
 
-def roundtripVal (ser : Serializer) (jdbc : Int) (v : GoVal) : Except DecErr GoVal :=
+def roundtripValBeforeFix (ser : Serializer) (jdbc : Int) (v : GoVal) : Except DecErr GoVal :=
   match ser with
-  | .json => unmarshalJson jdbc (marshalVal v)
-  | .protobuf => unmarshalPb (marshalVal v)
+  | .json => unmarshalJsonBeforeFix jdbc (marshalVal v)
+  | .protobuf => unmarshalPbBeforeFix (marshalVal v)
 
-/-- datasource.DeepEqual: numeric kinds compare by value, everything else structurally (and by Go
-    type: a string never equals a []byte) -/
-def undoEq : GoVal → GoVal → Bool
-  | .nil, .nil => true
-  | .int a, .int b => a == b
-  | .float a _, .float b _ => a == b
-  | .float a _, .f32 b => a == b
-  | .f32 a, .float b _ => a == b
-  | .f32 a, .f32 b => a == b
-  | .str a, .str b => a == b
-  | .bytes a, .bytes b => a == b
-  | .time a, .time b => a == b
-  | _, _ => false
-
-/-- the cells that DO round-trip: (serializer, JDBC code, value) -/
-def supported (ser : Serializer) (jdbc : Int) (v : GoVal) : Bool :=
-  match v, ser with
-  | .nil, _ => true
-  | .int i, .protobuf => exactF64 i
-  | .int i, .json =>
-    exactF64 i && (match classOf jdbc with
-      | .intN bits => inRange bits i
-      | .real | .dbl | .bin => true
-      | _ => false)
-  | .float _ _, .protobuf => true
-  | .float _ f32, .json => (match classOf jdbc with | .real => f32 | .dbl | .bin => true | _ => false)
-  | .f32 _, _ => false          -- never produced by the scanner
-  | .str _, .protobuf => true
-  | .str s, .json => (match classOf jdbc with | .char => (b64dec s).isNone || s.isEmpty | _ => false)
-  | .bytes _, _ => false        -- comes back as base64 text (both serializers)
-  | .time _, .protobuf => false -- comes back as a string
-  | .time ns, .json =>
-    (match classOf jdbc with | .time => -9223372036854775808 ≤ ns && ns < 9223372036854775808 | _ => false)
 
 /-! context: `k=v&k=v` -/
 def joinWith (sep : UInt8) : List Bytes → Bytes
